@@ -570,6 +570,8 @@ pub fn cmd_gen(args: &[String]) -> i32 {
             let mut rng = StdRng::seed_from_u64(seed ^ 0xc18);
             crate::sbridge::both_all(&mut rng, &mut sink, n);
         }
+        #[cfg(feature = "std")]
+        "extra" => crate::extra::gen_extra(&mut sink, seed),
         _ => { eprintln!("unknown family {}", fam); return 2 }
     }
     println!("{}", sink.finish());
